@@ -37,7 +37,7 @@ def configs(tier):
     for low in (0.0, 10.0, -5.0):
         for slope in (0.5, 1.0, 3.0):
             out.append(dict(name="linear", low_hz=low, slope_hz=slope))
-    lows = (1.0, 20.0, 440.0) if tier == "quick" else (0.25, 1.0, 20.0, 440.0, 8000.0)
+    lows = (0.5, 0.99, 1.0, 20.0, 440.0) if tier == "quick" else (1e-3, 0.25, 0.5, 0.99, 1.0, 20.0, 440.0, 8000.0)
     for low in lows:
         out.append(dict(name="octave", low_hz=low))
     return out
@@ -392,6 +392,43 @@ def _history_points(tier):
     return pts
 
 
+# ---------------------------------------------------------------- argument types
+
+INT_VALUES = (0, 1, 2, 3, 5, 19, 20, 21, 22, 24, 25, 100, 1000, 4000)
+
+
+def _argtype_point(cfg):
+    """the same VALUE passed as a Python int, numpy int32 / int64, numpy float32-exact float and a
+    Python float must give the same result (to 1e-12): whole Hz / whole Bark are ordinary arguments"""
+    obj = build(cfg)
+    viol = []
+    evals = 0
+    for direction in ("hertz_to_scale", "scale_to_hertz"):
+        fn = getattr(obj, direction)
+        for v in INT_VALUES:
+            if cfg["name"] == "octave" and direction == "hertz_to_scale" and v < cfg["low_hz"]:
+                continue
+            if direction == "scale_to_hertz" and v > 40:
+                continue
+            ref_r = computers.call(fn, float(v))
+            if ref_r[0] != "ok" or not np.isfinite(ref_r[1]):
+                continue
+            for kind, arg in (("int", int(v)), ("int32", np.int32(v)), ("int64", np.int64(v)),
+                              ("float64_0d", np.float64(v))):
+                evals += 1
+                r = computers.call(fn, arg)
+                ok = r[0] == "ok" and abs(float(r[1]) - float(ref_r[1])) <= 1e-12 * max(1.0, abs(float(ref_r[1])))
+                if not ok:
+                    viol.append(core.violation(
+                        dict(what="argument_type", scale=cfg["name"], call=direction, arg=kind),
+                        "%s %s(%r as %s) = %s but with the same value as a float it is %r" % (
+                            cfg, direction, v, kind, r[1] if r[0] == "ok" else r[1:], ref_r[1]),
+                        dict(kind="argtype", cfg=cfg)))
+                    break
+    return core.result(viol[:4], evals=evals, nontrivial_count=evals, obs=[cfg["name"], len(viol) == 0],
+                       sample=dict(cfg=cfg, values=list(INT_VALUES)))
+
+
 def subchecks(tier, seed):
     step = 0.25 if tier == "quick" else 0.0625
     chunk = 20000 if tier == "quick" else 40000
@@ -424,6 +461,11 @@ def subchecks(tier, seed):
             "directions: round trip, published formula, no drop beyond 8 ulps between adjacent floats, "
             "total variation across the neighbourhood < 1e-9 (continuity); the neighbourhood must "
             "straddle the break", replay=_breaks_replay, serial=True),
+        core.SubCheck(
+            "argument_types", cfgs, _argtype_point,
+            "whole-number arguments passed as Python int / numpy int32 / int64 / numpy float64 scalar, both "
+            "directions, every scale configuration: same result as with a Python float (1e-12)",
+            replay=lambda case: _argtype_point(case["cfg"])),
         core.SubCheck(
             "histories", _history_points(tier), _history_point,
             "objects living in one process: two instances of a class with different parameters queried at "
